@@ -46,6 +46,21 @@ Definition isdir (fs : fsmap) (p : path) : bool :=
 Definition pkg_of (fs : fsmap) (p : path) : option pkginfo :=
   match lookup fs p with Some (EDir pk) => pk | _ => None end.
 
+(* esbuild keeps the entries of a directory in a map keyed by the LOWER-CASED
+   name (fs.DirEntries.Get), i.e. its lookups are case-insensitive; this model
+   looks entries up exactly.  The two coincide as long as no lookup meets an
+   entry that differs from the queried name only by letter case; two siblings
+   that differ only by case (finding D11) are the case in which esbuild's map
+   itself is wrong.  [no_case_collision] states the absence of such siblings. *)
+Definition lower_path (p : path) : path := map lower_str p.
+Fixpoint no_case_collision (fs : fsmap) : bool :=
+  match fs with
+  | [] => true
+  | (p, _) :: r =>
+      negb (existsb (fun qe => path_eqb (lower_path (fst qe)) (lower_path p) && negb (path_eqb (fst qe) p)) r)
+      && no_case_collision r
+  end.
+
 (* fs.Join(dir, rel) / path.resolve(dir, rel): "" and "." dropped, ".." pops *)
 Fixpoint walk_segs (stack : list str) (segs : list str) : list str :=  (* stack is reversed *)
   match segs with
